@@ -60,7 +60,8 @@ impl FunctionMarkupPass {
 
                     let inst = With::new(JumpLinkType::Jal, info.clone());
                     let rd = With::new(Register::X0, info.clone());
-                    let name = With::new(LabelString::new("__return__"), info.clone());
+                    // not a name a program can give to a label of its own
+                    let name = With::new(LabelString::new("<return>"), info.clone());
                     let new_node =
                         ParserNode::new_jump_link(inst, rd, name, found_ret.node().token().clone());
                     #[allow(unused_must_use)]
